@@ -219,6 +219,13 @@ fn c16_raw() -> Vec<(String, String)> {
     add("raw_dup_items", "#[logos(extras = u8, extras = u16, error = E, error = F, utf8 = false, utf8 = true)] enum T { #[token(\"a\")] X, #[token(\"a\")] Y, #[regex(\"a\")] Z }");
     add("raw_extras_error", "#[logos(extras = Vec<u8>, error = E)] #[logos(skip \" +\")] enum T { #[regex(\"[a-z]+\", cb)] W, #[token(\"=\")] Eq }");
     add("raw_crate", "#[logos(crate = my::logos)] enum T { #[token(\"a\")] A, #[token(\"b\")] B }");
+    // several leaves with the SAME action: one variant carrying several attributes, several plain
+    // skips, several skips / variants sharing one callback (anything that groups leaves by what they
+    // do has two or more groups of two or more members here)
+    add("raw_shared_unit", "enum T { #[token(\"+\")] #[token(\"plus\")] #[regex(\"add(ed)?\")] Plus, #[token(\"-\")] #[token(\"minus\")] Minus, #[regex(\"[0-9]+\")] N }");
+    add("raw_shared_skips", "#[logos(skip \" +\", skip \"\\t+\")] #[logos(skip \"#[a-z]*\")] enum T { #[token(\"a\")] #[token(\"b\")] AB, #[token(\"c\")] C }");
+    add("raw_shared_cb", "#[logos(skip(\" +\", sk), skip(\"\\n+\", sk))] enum T { #[regex(\"[a-z]+\", cb)] #[regex(\"[A-Z]+\", cb)] W(u8), #[regex(\"[0-9]+\", cb)] N(u8), #[token(\"x\", |_| 1)] #[token(\"y\", |_| 1)] XY(u8), #[token(\"=\")] #[token(\":=\")] Eq }");
+    add("raw_shared_many", "enum T { #[token(\"a\")] #[token(\"b\")] #[token(\"c\")] #[token(\"d\")] #[token(\"e\")] Abc, #[token(\"f\")] #[token(\"g\")] #[token(\"h\")] Fgh, #[token(\"i\")] #[token(\"j\")] Ij, #[token(\"k\")] #[token(\"l\")] Kl, #[token(\"m\")] M }");
     v
 }
 
